@@ -2,6 +2,7 @@ SPECIFICATION Spec
 CONSTANT N = 1
 INVARIANT PrintedIsGrantedMatch
 INVARIANT JudgeSound
+INVARIANT ObsTranscriptionAgrees
 INVARIANT NoPhraseAfterMainRefusal
 INVARIANT AtMostOnePrint
 PROPERTY ExitsWhenMessagePending
